@@ -37,6 +37,7 @@ func main() {
 		// each, never unmapped) crept up to the earlier 2 GiB ceiling and
 		// died without any decoder being at fault.
 		debug.SetGCPercent(50)
+		debug.SetMemoryLimit(5 << 29) // soft 2.5 GiB: collect hard before the address-space ceiling is near
 		lim := syscall.Rlimit{Cur: 4 << 30, Max: 4 << 30}
 		if err := syscall.Setrlimit(syscall.RLIMIT_AS, &lim); err != nil {
 			fmt.Fprintln(os.Stderr, "c08 worker: setrlimit:", err)
@@ -445,6 +446,11 @@ func (c *runCtx) check(decIdx int, in []byte) string {
 		return "panic"
 	}
 	bound := allocBound(len(in))
+	if delta > 32<<20 {
+		// big (possibly legitimate) allocation: give the memory back before the
+		// next call so that garbage cannot pile up against the ceiling
+		defer func() { runtime.GC(); debug.FreeOSMemory() }()
+	}
 	if delta > bound/4 {
 		c.res.Stats["exact_alloc_measurements"]++
 		ex := exactAlloc(func() { vs.Solo(stepBudget(len(in)), func() { d.fn(fin) }) })
